@@ -90,8 +90,15 @@ async def scenario(loop, plan, r):
         ezsp._switch_protocol_version(v)
         ezsp.start_ezsp()
         app._ezsp = ezsp
-        app._watchdog_failures = 0
-        app._watchdog_feed_counter = plan.get("counter0", 0)
+        # start from a known state where the attributes exist under these names; an application that keeps its
+        # bookkeeping elsewhere starts at zero by itself, and plans that preset the feed counter are then skipped
+        if hasattr(app, "_watchdog_failures"):
+            app._watchdog_failures = 0
+        if hasattr(app, "_watchdog_feed_counter"):
+            app._watchdog_feed_counter = plan.get("counter0", 0)
+        elif plan.get("counter0"):
+            r.cls("feed-counter-preset-unavailable")
+            return
         between = plan.get("between") or []
         if between:
             import zigpy.types as zt
